@@ -54,6 +54,8 @@ def check_case(case):
     out.classes = ['map:' + meta.get('file', '?'), 'layout:' + repr(case.get('eol')), 'faults:%d' % len(meta.get('faults', [])), 'charset:' + cs]
     if meta.get('aligned'):
         out.classes.append('terminator-on-buffer-edge')
+    if meta.get('empty_segment'):
+        out.classes.append('empty-segment')
     if 'junk-segment' in meta.get('faults', []):
         out.classes.append('malformed-segment')
     if any(c in dl[:2] for c in CTRL):
@@ -85,6 +87,18 @@ def check_case(case):
     except Exception as e:
         out.fail('ack-unreadable', core.exc_detail(e))
     return out
+
+
+def double_term(text, term, eol, j, k=1):
+    """k more terminators (each followed by the layout's line break) after the j-th segment; the data holds no terminator"""
+    parts = text.split(term)
+    if j + 1 >= len(parts):
+        j = len(parts) - 2
+    if j < 0:
+        return text
+    for _ in range(k):
+        parts.insert(j + 1, eol)
+    return term.join(parts)
 
 
 def draw_delims(ch, icvn):
@@ -145,7 +159,14 @@ def run_entry(entry, n, seed, acc, tier, rot=0):
             hit = docgen.pad_to_boundary(doc, dl[0], dl[1], dl[2], eol, dl[3], delta=ch.choice([-1, -1, -2, 0]))
             if hit:
                 meta['aligned'] = hit
-        return {'text_ref': doc.text(), 'text_alt': doc.text(term=dl[0], ele=dl[1], sub=dl[2], rep=dl[3], eol=eol),
+        text_ref, text_alt = doc.text(), doc.text(term=dl[0], ele=dl[1], sub=dl[2], rep=dl[3], eol=eol)
+        if ch.chance(.12):
+            # an empty segment (two terminators in a row, the line break of the layout between them) after the same segment of both
+            j = ch.integer(0, max(0, len(doc.segs) - 1))
+            k = ch.choice([1, 1, 2])
+            text_ref, text_alt = double_term(text_ref, '~', '\n', j, k), double_term(text_alt, dl[0], eol, j, k)
+            meta['empty_segment'] = [j, k]
+        return {'text_ref': text_ref, 'text_alt': text_alt,
                 'delims': list(dl), 'eol': eol, 'charset': charset, 'meta': meta}
 
     def chk(c):
